@@ -519,6 +519,9 @@ func c26Do(st *c26State, rpc c26Rpc, msg proto.Message) string {
 		}
 	}
 	store := "same"
+	corrupt := false
+	mentioned := map[string]bool{}
+	c26Strings(msg.ProtoReflect(), mentioned)
 	if closeRes == "ok" {
 		for _, n := range names {
 			want, have := st.base[n], c26Snapshot(st, n)
@@ -527,11 +530,82 @@ func c26Do(st *c26State, rpc c26Rpc, msg proto.Message) string {
 			}
 			if want != have {
 				store = "changed"
+				if c26Keyed(rpc.name) && c26Collateral(want, have, mentioned) {
+					corrupt = true
+				}
 				c26Restore(st, n)
 			}
 		}
 	}
+	if corrupt {
+		store = "corrupt"
+	}
 	return fmt.Sprintf("%s p=%d lock=%d vig=%d store=%s close=%s", class, rec, lock, vig, store, closeRes)
+}
+
+// RPCs that address treasures by key: every treasure whose key the request does not mention must
+// come back from disk unchanged
+func c26Keyed(rpc string) bool {
+	switch {
+	case rpc == "Set", rpc == "Delete", rpc == "ShiftByKeys", strings.HasPrefix(rpc, "PatchTreasures"),
+		strings.HasPrefix(rpc, "Increment"), rpc == "Uint32SlicePush", rpc == "Uint32SliceDelete":
+		return true
+	}
+	return false
+}
+
+func c26Rows(snap string) map[string]string {
+	out := map[string]string{}
+	i := strings.Index(snap, ":")
+	if i < 0 || snap == "absent" {
+		return out
+	}
+	for _, r := range strings.Split(snap[i+1:], ",") {
+		if j := strings.LastIndex(r, "="); j >= 0 {
+			out[r[:j]] = r[j+1:]
+		}
+	}
+	return out
+}
+
+// a treasure the request did not mention is missing or different after the reload
+func c26Collateral(before, after string, mentioned map[string]bool) bool {
+	if strings.HasPrefix(after, "unreadable") {
+		return true
+	}
+	a := c26Rows(after)
+	for k, v := range c26Rows(before) {
+		if mentioned[k] {
+			continue
+		}
+		if a[k] != v {
+			return true
+		}
+	}
+	return false
+}
+
+func c26Strings(m protoreflect.Message, out map[string]bool) {
+	m.Range(func(fd protoreflect.FieldDescriptor, v protoreflect.Value) bool {
+		switch {
+		case fd.IsMap():
+		case fd.Kind() == protoreflect.StringKind && fd.IsList():
+			l := v.List()
+			for i := 0; i < l.Len(); i++ {
+				out[l.Get(i).String()] = true
+			}
+		case fd.Kind() == protoreflect.StringKind:
+			out[v.String()] = true
+		case fd.Kind() == protoreflect.MessageKind && fd.IsList():
+			l := v.List()
+			for i := 0; i < l.Len(); i++ {
+				c26Strings(l.Get(i).Message(), out)
+			}
+		case fd.Kind() == protoreflect.MessageKind:
+			c26Strings(v.Message(), out)
+		}
+		return true
+	})
 }
 
 func c26Run(in *bufio.Scanner, w *bufio.Writer) {
@@ -769,23 +843,46 @@ type c26Mut struct {
 	label string
 }
 
-func c26Mutations(base proto.Message, rng *rand.Rand) []c26Mut {
+type c26Op struct {
+	path  []int
+	label string
+	f     func(m protoreflect.Message)
+}
+
+// navigate to the sub-message at path (pairs of field index, element index); false if it is gone
+func c26ApplyTo(c proto.Message, op c26Op) (ok bool) {
+	defer func() {
+		if r := recover(); r != nil {
+			ok = false
+		}
+	}()
+	m := c.ProtoReflect()
+	for i := 0; i+1 < len(op.path); i += 2 {
+		fd := m.Descriptor().Fields().Get(op.path[i])
+		if fd.IsList() {
+			l := m.Mutable(fd).List()
+			if op.path[i+1] >= l.Len() {
+				return false
+			}
+			m = l.Get(op.path[i+1]).Message()
+		} else {
+			if !m.Has(fd) {
+				return false
+			}
+			m = m.Mutable(fd).Message()
+		}
+	}
+	op.f(m)
+	return true
+}
+
+func c26Mutations(base proto.Message, rng *rand.Rand, doubles int) []c26Mut {
 	var out []c26Mut
+	var ops []c26Op
 	curLabel := ""
 	var walk func(path []int, m protoreflect.Message, depth int)
 	apply := func(path []int, f func(m protoreflect.Message)) {
-		c := proto.Clone(base)
-		m := c.ProtoReflect()
-		for i := 0; i+1 < len(path); i += 2 {
-			fd := m.Descriptor().Fields().Get(path[i])
-			if fd.IsList() {
-				m = m.Mutable(fd).List().Get(path[i+1]).Message()
-			} else {
-				m = m.Mutable(fd).Message()
-			}
-		}
-		f(m)
-		out = append(out, c26Mut{c, curLabel})
+		ops = append(ops, c26Op{append([]int{}, path...), curLabel, f})
 	}
 	long := strings.Repeat("k", 70000)
 	walk = func(path []int, m protoreflect.Message, depth int) {
@@ -914,7 +1011,23 @@ func c26Mutations(base proto.Message, rng *rand.Rand) []c26Mut {
 		}
 	}
 	walk(nil, base.ProtoReflect(), 0)
-	_ = rng
+	for _, op := range ops {
+		c := proto.Clone(base)
+		if c26ApplyTo(c, op) {
+			out = append(out, c26Mut{c, op.label})
+		}
+	}
+	// pairs of mutations of different fields (thorough tier)
+	for k := 0; k < doubles && len(ops) > 1; k++ {
+		a, b := ops[rng.Intn(len(ops))], ops[rng.Intn(len(ops))]
+		if a.label == b.label && fmt.Sprint(a.path) == fmt.Sprint(b.path) {
+			continue
+		}
+		c := proto.Clone(base)
+		if c26ApplyTo(c, a) && c26ApplyTo(c, b) {
+			out = append(out, c26Mut{c, a.label + "+" + b.label})
+		}
+	}
 	return out
 }
 
@@ -939,6 +1052,29 @@ func c26Cap(k int) *hydrapb.Cap {
 		return &hydrapb.Cap{MaxMatching: 5, Filter: c26Filter(false)}
 	}
 	return &hydrapb.Cap{MaxMatching: 5, Filter: c26Filter(true)}
+}
+
+// corpus: the minimised requests of the recorded findings, always run (quick tier samples the rest)
+func c26Directed(rpc c26Rpc) []c26Mut {
+	const S = "c26/seed/main"
+	switch rpc.name {
+	case "GetByIndex":
+		return []c26Mut{{&hydrapb.GetByIndexRequest{IslandID: c26Island, SwampName: S, From: -1, Limit: 2}, "From"}}
+	case "GetByIndexStream":
+		return []c26Mut{{&hydrapb.GetByIndexStreamRequest{IslandID: c26Island, SwampName: S, From: -1, Limit: 2}, "From"}}
+	case "GetByIndexStreamFromMany":
+		return []c26Mut{{&hydrapb.GetByIndexStreamFromManyRequest{Queries: []*hydrapb.SwampQuery{{IslandID: c26Island, SwampName: S, From: -1, Limit: 2}}}, "From"}}
+	case "Uint32SliceDelete":
+		return []c26Mut{
+			{&hydrapb.Uint32SliceDeleteRequest{IslandID: c26Island, SwampName: S, KeySlicePairs: []*hydrapb.KeySlicePair{{Key: "s1", Values: []uint32{1}}}}, "Key"},
+			{&hydrapb.Uint32SliceDeleteRequest{IslandID: c26Island, SwampName: S, KeySlicePairs: []*hydrapb.KeySlicePair{{Key: "sl", Values: []uint32{1, 2, 3}}}}, "Values"},
+		}
+	case "Uint32SliceSize":
+		return []c26Mut{{&hydrapb.Uint32SliceSizeRequest{IslandID: c26Island, SwampName: "c26/none/missing", Key: "sl"}, "SwampName"}}
+	case "Uint32SliceIsValueExist":
+		return []c26Mut{{&hydrapb.Uint32SliceIsValueExistRequest{IslandID: c26Island, SwampName: "c26/none/missing", Key: "sl", Value: 2}, "SwampName"}}
+	}
+	return nil
 }
 
 // ---- shape classification (the abstraction the Lean model works on) ----------
@@ -1111,9 +1247,9 @@ func c26Emit(w *bufio.Writer, rpc c26Rpc, msg proto.Message, mode string, label 
 }
 
 func c26Gen(rng *rand.Rand, tier string, w *bufio.Writer) {
-	per := 32
+	per, doubles := 32, 0
 	if tier == "thorough" {
-		per = 2000
+		per, doubles = 2000, 1200
 	}
 	only := os.Getenv("C26_ONLY")
 	for ci, rpc := range c26Rpcs() {
@@ -1123,7 +1259,10 @@ func c26Gen(rng *rand.Rand, tier string, w *bufio.Writer) {
 		fmt.Fprintf(w, "case %d %s\n", ci, rpc.name)
 		base := c26Base(rpc)
 		c26Emit(w, rpc, base, "w", "base")
-		muts := c26Mutations(base, rng)
+		for _, d := range c26Directed(rpc) {
+			c26Emit(w, rpc, d.msg, "w", d.label)
+		}
+		muts := c26Mutations(base, rng, doubles)
 		// name / key-list mutations first (the anticipated defects), the rest sampled
 		var first, rest []c26Mut
 		for _, m := range muts {
